@@ -57,4 +57,270 @@ theorem letter_eq_l (g : Seg) : g.toPSeg.letter = 'l' ↔ g.isLine = true := by
 theorem isLine_iff (g : Seg) : g.isLine = true ↔ ∃ p, g = .l p := by
   cases g <;> simp [Seg.isLine]
 
+
+/-! ### classification of one sub-path -/
+
+/-- Rectangle points are the subject of the open finding `ltrect-pts-canonical-order`: the
+comparison of shapes leaves them out (they are compared separately in `C16_rect_pts`). -/
+def eraseRectPts (s : Shape) : Shape := if s.kind = .rect then { s with pts := [] } else s
+
+def specShape (a : PaintArgs) (kp : Kind × List Point) (tpath : List PSeg) : Shape :=
+  mkShape kp.1 a kp.2 tpath
+
+def lettersOf (ns : List Seg) : List Char := ns.map (fun g => g.toPSeg.letter)
+def closeL (c : Bool) : List Char := if c then ['h'] else []
+def closeP (c : Bool) (s : Point) : List Point := if c then [s] else []
+
+theorem squareCoords_eq : squareCoords = axisAligned := rfl
+
+theorem rect_bbox (s e1 e2 e3 : Point) (h : axisAligned s e1 e2 e3 = true) :
+    getBound [(s.1, s.2), (e2.1, s.2), (e2.1, e2.2), (s.1, e2.2)] = getBound [s, e1, e2, e3] := by
+  obtain ⟨sx, sy⟩ := s
+  obtain ⟨x1, y1⟩ := e1
+  obtain ⟨x2, y2⟩ := e2
+  obtain ⟨x3, y3⟩ := e3
+  simp only [axisAligned, decide_eq_true_eq] at h
+  simp only [getBound, List.foldl_cons, List.foldl_nil]
+  rcases h with ⟨h1, h2, h3, h4⟩ | ⟨h1, h2, h3, h4⟩ <;> subst_vars <;> simp only [Option.some.injEq, Prod.mk.injEq] <;>
+    refine ⟨?_, ?_, ?_, ?_⟩ <;> grind
+
+theorem classify_spec (a : PaintArgs) (s' : Point) (ns : List Seg) (c : Bool) (tpath : List PSeg)
+    (hne : ns ≠ []) :
+    (classifyShape a ('m' :: (lettersOf ns ++ closeL c)) (s' :: (ns.map Seg.endPt ++ closeP c s')) tpath).map
+        eraseRectPts = [eraseRectPts (specShape a (kindPts s' ns c) tpath)] := by
+  match ns, hne with
+  | [a1], _ =>
+    cases c <;> cases a1 <;>
+      simp [classifyShape, lettersOf, closeL, closeP, kindPts, Seg.toPSeg, PSeg.letter, Seg.isLine, Seg.endPt,
+        specShape, mkLine, mkCurve]
+  | [a1, a2], _ =>
+    cases c <;> cases hs : ([a1, a2].all Seg.isLine) <;>
+      simp [classifyShape, lettersOf, closeL, closeP, kindPts, hs, specShape, mkCurve, letter_toPSeg_ne_h]
+  | [a1, a2, a3], _ =>
+    cases c <;> cases hs : ([a1, a2, a3].all Seg.isLine)
+    · simp [classifyShape, lettersOf, closeL, closeP, kindPts, hs, specShape, mkCurve, letter_toPSeg_ne_h]
+    · simp [classifyShape, lettersOf, closeL, closeP, kindPts, hs, specShape, mkCurve, letter_toPSeg_ne_h]
+    · have : ¬ (a1.toPSeg.letter = 'l' ∧ a2.toPSeg.letter = 'l' ∧ a3.toPSeg.letter = 'l') := by
+        simp only [letter_eq_l]; simp at hs; grind
+      simp [classifyShape, lettersOf, closeL, closeP, kindPts, hs, specShape, mkCurve, this]
+    · simp only [List.all_cons, List.all_nil, Bool.and_true, Bool.and_eq_true, isLine_iff] at hs
+      obtain ⟨⟨p1, rfl⟩, ⟨p2, rfl⟩, ⟨p3, rfl⟩⟩ := hs
+      by_cases hax : axisAligned s' p1 p2 p3 = true
+      · have hb := rect_bbox s' p1 p2 p3 hax
+        simp [classifyShape, lettersOf, closeL, closeP, kindPts, specShape, mkRect, mkShape, Seg.toPSeg,
+          PSeg.letter, Seg.isLine, Seg.endPt, hax, eraseRectPts, hb, squareCoords_eq]
+      · simp [classifyShape, lettersOf, closeL, closeP, kindPts, specShape, mkCurve, mkShape, Seg.toPSeg,
+          PSeg.letter, Seg.isLine, Seg.endPt, hax, eraseRectPts, squareCoords_eq]
+  | [a1, a2, a3, a4], _ =>
+    cases c <;> cases hs : ([a1, a2, a3, a4].all Seg.isLine)
+    · have : ¬ (a1.toPSeg.letter = 'l' ∧ a2.toPSeg.letter = 'l' ∧ a3.toPSeg.letter = 'l' ∧
+          a4.toPSeg.letter = 'l') := by
+        simp only [letter_eq_l]; simp at hs; grind
+      simp [classifyShape, lettersOf, closeL, closeP, kindPts, hs, specShape, mkCurve, this, letter_toPSeg_ne_h]
+    · simp only [List.all_cons, List.all_nil, Bool.and_true, Bool.and_eq_true, isLine_iff] at hs
+      obtain ⟨⟨p1, rfl⟩, ⟨p2, rfl⟩, ⟨p3, rfl⟩, ⟨p4, rfl⟩⟩ := hs
+      by_cases hax : p4 = s' ∧ axisAligned s' p1 p2 p3 = true
+      · obtain ⟨rfl, hax2⟩ := hax
+        have hb := rect_bbox p4 p1 p2 p3 hax2
+        simp [classifyShape, lettersOf, closeL, closeP, kindPts, specShape, mkRect, mkShape, Seg.toPSeg,
+          PSeg.letter, Seg.isLine, Seg.endPt, hax2, eraseRectPts, hb, squareCoords_eq]
+      · have h4 : ¬ (s' = p4 ∧ axisAligned s' p1 p2 p3 = true) := fun h => hax ⟨h.1.symm, h.2⟩
+        simp [classifyShape, lettersOf, closeL, closeP, kindPts, specShape, mkCurve, mkShape, Seg.toPSeg,
+          PSeg.letter, Seg.isLine, Seg.endPt, hax, eraseRectPts, squareCoords_eq, h4]
+    · simp [classifyShape, lettersOf, closeL, closeP, kindPts, hs, specShape, mkCurve, letter_toPSeg_ne_h]
+    · simp [classifyShape, lettersOf, closeL, closeP, kindPts, hs, specShape, mkCurve, letter_toPSeg_ne_h]
+  | a1 :: a2 :: a3 :: a4 :: a5 :: rest, _ =>
+    cases c <;> cases hs : ((a1 :: a2 :: a3 :: a4 :: a5 :: rest).all Seg.isLine) <;>
+      simp [classifyShape, lettersOf, closeL, closeP, kindPts, hs, specShape, mkCurve]
+
+
+/-! ### paintSingle on the flat encoding of one sub-path -/
+
+def flat1 (sp : SubPath) : List PSeg :=
+  PSeg.m sp.start :: (sp.segs.map Seg.toPSeg ++ (if sp.closed then [PSeg.h] else []))
+
+theorem letter_map (f : Point → Point) (g : Seg) : (g.map f).toPSeg.letter = g.toPSeg.letter := by
+  cases g <;> rfl
+
+theorem flat_letters (f : Point → Point) (segs : List Seg) (c : Bool) :
+    (segs.map Seg.toPSeg ++ (if c then [PSeg.h] else [])).map PSeg.letter =
+      lettersOf (segs.map (Seg.map f)) ++ closeL c := by
+  have hh : PSeg.h.letter = 'h' := rfl
+  cases c <;> simp [lettersOf, closeL, List.map_map, Function.comp_def, letter_map, hh]
+
+theorem flat_pts (f : Point → Point) (s : Point) (segs : List Seg) (c : Bool) :
+    (segs.map Seg.toPSeg ++ (if c then [PSeg.h] else [])).map (fun p => f (p.lastPt s)) =
+      (segs.map (Seg.map f)).map Seg.endPt ++ closeP c (f s) := by
+  have hh : PSeg.h.lastPt s = s := rfl
+  cases c <;> simp [closeP, List.map_map, Function.comp_def, lastPt_toPSeg, endPt_map, hh]
+
+theorem flat_tpath (f : Point → Point) (sp : SubPath) :
+    (flat1 sp).map (PSeg.mapPts f) = pathOf f sp := by
+  obtain ⟨s, segs, c, imp⟩ := sp
+  have hm : ∀ p : Point, (PSeg.m p).mapPts f = PSeg.m (f p) := fun _ => rfl
+  have hh : PSeg.h.mapPts f = PSeg.h := rfl
+  cases c <;> simp [flat1, pathOf, List.map_map, Function.comp_def, toPSeg_map, hm, hh]
+
+theorem lastPt_m (p q : Point) : (PSeg.m p).lastPt q = p := rfl
+theorem letter_m (p : Point) : (PSeg.m p).letter = 'm' := rfl
+
+theorem paintSingle_flat1_unfold (ctm : Matrix) (a : PaintArgs) (sp : SubPath) :
+    paintSingle ctm a (flat1 sp) =
+      classifyShape a
+        (if redundantL ('m' :: (lettersOf (sp.segs.map (Seg.map (apply_matrix_pt ctm))) ++ closeL sp.closed))
+              (apply_matrix_pt ctm sp.start :: ((sp.segs.map (Seg.map (apply_matrix_pt ctm))).map Seg.endPt ++
+                closeP sp.closed (apply_matrix_pt ctm sp.start)))
+         then ('m' :: (lettersOf (sp.segs.map (Seg.map (apply_matrix_pt ctm))) ++ closeL sp.closed)).take
+              (('m' :: (lettersOf (sp.segs.map (Seg.map (apply_matrix_pt ctm))) ++ closeL sp.closed)).length - 2) ++ ['h']
+         else 'm' :: (lettersOf (sp.segs.map (Seg.map (apply_matrix_pt ctm))) ++ closeL sp.closed))
+        (if redundantL ('m' :: (lettersOf (sp.segs.map (Seg.map (apply_matrix_pt ctm))) ++ closeL sp.closed))
+              (apply_matrix_pt ctm sp.start :: ((sp.segs.map (Seg.map (apply_matrix_pt ctm))).map Seg.endPt ++
+                closeP sp.closed (apply_matrix_pt ctm sp.start)))
+         then (apply_matrix_pt ctm sp.start :: ((sp.segs.map (Seg.map (apply_matrix_pt ctm))).map Seg.endPt ++
+                closeP sp.closed (apply_matrix_pt ctm sp.start))).dropLast
+         else apply_matrix_pt ctm sp.start :: ((sp.segs.map (Seg.map (apply_matrix_pt ctm))).map Seg.endPt ++
+                closeP sp.closed (apply_matrix_pt ctm sp.start)))
+        (pathOf (apply_matrix_pt ctm) sp) := by
+  have ht := flat_tpath (apply_matrix_pt ctm) sp
+  obtain ⟨s, segs, c, imp⟩ := sp
+  simp only [flat1] at ht ⊢
+  simp only [paintSingle, ht, List.map_cons, lastPt_m, letter_m, flat_letters (apply_matrix_pt ctm),
+    flat_pts (apply_matrix_pt ctm)]
+
+/-! ### the redundant closing `l` -/
+
+theorem eq_nil_or_snoc {α : Type} (l : List α) : l = [] ∨ ∃ L b, l = L ++ [b] := by
+  rcases List.eq_nil_or_concat l with h | ⟨L, b, h⟩
+  · exact Or.inl h
+  · exact Or.inr ⟨L, b, by rw [h, List.concat_eq_append]⟩
+
+theorem red_closed (N0 : List Seg) (g : Seg) (s' : Point) :
+    redundantL ('m' :: (lettersOf (N0 ++ [g]) ++ closeL true)) (s' :: ((N0 ++ [g]).map Seg.endPt ++ closeP true s')) =
+      decide (N0 ≠ [] ∧ g.toPSeg.letter = 'l' ∧ g.endPt = s') := by
+  have e1 : ('m' :: (lettersOf (N0 ++ [g]) ++ closeL true)) = ('m' :: lettersOf N0) ++ [g.toPSeg.letter, 'h'] := by
+    simp [lettersOf, closeL]
+  have e2 : (s' :: ((N0 ++ [g]).map Seg.endPt ++ closeP true s')) = (s' :: N0.map Seg.endPt) ++ [g.endPt, s'] := by
+    simp [closeP]
+  rw [e1, e2]
+  unfold redundantL
+  have l1 : (('m' :: lettersOf N0) ++ [g.toPSeg.letter, 'h']).length - 2 = ('m' :: lettersOf N0).length := by simp
+  have l2 : ((s' :: N0.map Seg.endPt) ++ [g.endPt, s']).length - 2 = (s' :: N0.map Seg.endPt).length := by simp
+  rw [l1, l2, List.drop_left]
+  rw [List.getElem?_append_right (Nat.le_refl _)]
+  simp [lettersOf]
+  cases N0 <;> simp
+
+theorem red_open (ns : List Seg) (pts : List Point) (hne : ns ≠ []) :
+    redundantL ('m' :: (lettersOf ns ++ closeL false)) pts = false := by
+  rcases eq_nil_or_snoc ns with rfl | ⟨N0, g, rfl⟩
+  · exact absurd rfl hne
+  · unfold redundantL
+    simp only [closeL, Bool.false_eq_true, if_false, List.append_nil]
+    rw [decide_eq_false_iff_not]
+    rintro ⟨_, hdrop, _⟩
+    have h1 := congrArg List.getLast? hdrop
+    rw [List.getLast?_drop] at h1
+    have h2 : ('m' :: lettersOf (N0 ++ [g])).getLast? = some g.toPSeg.letter := by
+      rw [show 'm' :: lettersOf (N0 ++ [g]) = ('m' :: lettersOf N0) ++ [g.toPSeg.letter] by simp [lettersOf]]
+      exact List.getLast?_concat ..
+    rw [h2] at h1
+    split at h1
+    · cases h1
+    · simp only [List.getLast?_cons_cons, List.getLast?_singleton, Option.some.injEq] at h1
+      exact absurd h1 (letter_toPSeg_ne_h g)
+
+theorem drop_step (a : PaintArgs) (s' : Point) (ns : List Seg) (c : Bool) (tpath : List PSeg) (hne : ns ≠ []) :
+    (classifyShape a
+        (if redundantL ('m' :: (lettersOf ns ++ closeL c)) (s' :: (ns.map Seg.endPt ++ closeP c s'))
+         then ('m' :: (lettersOf ns ++ closeL c)).take (('m' :: (lettersOf ns ++ closeL c)).length - 2) ++ ['h']
+         else 'm' :: (lettersOf ns ++ closeL c))
+        (if redundantL ('m' :: (lettersOf ns ++ closeL c)) (s' :: (ns.map Seg.endPt ++ closeP c s'))
+         then (s' :: (ns.map Seg.endPt ++ closeP c s')).dropLast
+         else s' :: (ns.map Seg.endPt ++ closeP c s')) tpath).map eraseRectPts =
+      [eraseRectPts (specShape a (kindPts s' (normSegs s' c ns) c) tpath)] := by
+  cases c
+  · -- open sub-path: nothing is dropped on either side
+    rw [red_open ns _ hne]
+    have hn : normSegs s' false ns = ns := by
+      unfold normSegs
+      split <;> simp
+    rw [hn]
+    simpa using classify_spec a s' ns false tpath hne
+  · rcases eq_nil_or_snoc ns with rfl | ⟨N0, g, rfl⟩
+    · exact absurd rfl hne
+    · rw [red_closed]
+      by_cases hd : N0 ≠ [] ∧ g.toPSeg.letter = 'l' ∧ g.endPt = s'
+      · obtain ⟨hN, hl, he⟩ := hd
+        obtain ⟨p, rfl⟩ := (isLine_iff g).1 ((letter_eq_l g).1 hl)
+        have hn : normSegs s' true (N0 ++ [Seg.l p]) = N0 := by
+          have hlen : 2 ≤ N0.length + 1 := by
+            cases N0 with
+            | nil => exact absurd rfl hN
+            | cons _ _ => simp
+          simp only [Seg.endPt] at he
+          simp [normSegs, he, hlen]
+        rw [hn]
+        have e1 : ('m' :: (lettersOf (N0 ++ [Seg.l p]) ++ closeL true)) =
+            ('m' :: lettersOf N0) ++ [(Seg.l p).toPSeg.letter, 'h'] := by simp [lettersOf, closeL]
+        have e2 : (s' :: ((N0 ++ [Seg.l p]).map Seg.endPt ++ closeP true s')) =
+            (s' :: N0.map Seg.endPt) ++ [(Seg.l p).endPt, s'] := by simp [closeP]
+        have l1 : (('m' :: lettersOf N0) ++ [(Seg.l p).toPSeg.letter, 'h']).length - 2 =
+            ('m' :: lettersOf N0).length := by simp
+        simp only [Seg.endPt] at he
+        subst he
+        have hc := classify_spec a p N0 true tpath hN
+        simp only [hN, hl, ne_eq, not_false_eq_true, true_and]
+        rw [e1, e2, l1, List.take_left]
+        have hdl : (p :: (List.map Seg.endPt N0 ++ [p, p])).dropLast = p :: (List.map Seg.endPt N0 ++ [p]) := by
+          rw [show p :: (List.map Seg.endPt N0 ++ [p, p]) = (p :: (List.map Seg.endPt N0 ++ [p])) ++ [p] by simp]
+          exact List.dropLast_concat
+        simpa [closeL, closeP, Seg.endPt, hdl] using hc
+      · have hn : normSegs s' true (N0 ++ [g]) = N0 ++ [g] := by
+          unfold normSegs
+          split
+          · rename_i p hp
+            simp at hp
+            subst hp
+            have : ¬ (N0 ≠ [] ∧ p = s') := fun h => hd ⟨h.1, rfl, h.2⟩
+            split
+            · rename_i h
+              have h2 : N0 ≠ [] := by
+                intro h0; subst h0; simp at h
+              exact absurd ⟨h2, h.2.2⟩ this
+            · rfl
+          · rfl
+        rw [hn]
+        simp only [hd, decide_false, Bool.false_eq_true, if_false]
+        exact classify_spec a s' (N0 ++ [g]) true tpath hne
+
+/-! ### one sub-path: implementation model = specification -/
+
+/-- The implementation's graphics state that corresponds to a specification state (no pattern colour). -/
+def gsOf (g : SGState) : GState :=
+  { linewidth := g.linewidth, dash := g.dash.map (fun d => (Operand.arr d.1, Operand.num d.2)),
+    scolor := g.scolor, ncolor := g.ncolor, scs := g.sspace.n, ncs := g.nspace.n }
+
+def argsOf (g : SGState) (stroke fill evenodd : Bool) : PaintArgs := ⟨gsOf g, stroke, fill, evenodd⟩
+
+theorem shapeOf_eq (g : SGState) (st fi eo : Bool) (sp : SubPath) (hne : sp.segs ≠ []) :
+    shapeOf g st fi eo sp =
+      some (specShape (argsOf g st fi eo)
+        (kindPts (apply_matrix_pt g.ctm sp.start)
+          (normSegs (apply_matrix_pt g.ctm sp.start) sp.closed (sp.segs.map (Seg.map (apply_matrix_pt g.ctm))))
+          sp.closed) (pathOf (apply_matrix_pt g.ctm) sp)) := by
+  have : sp.segs.isEmpty = false := by
+    cases h : sp.segs with
+    | nil => exact absurd h hne
+    | cons _ _ => rfl
+  simp [shapeOf, this, specShape, mkShape, argsOf, gsOf, getBound_eq_hull]
+
+theorem paintSingle_flat1 (g : SGState) (st fi eo : Bool) (sp : SubPath) (hne : sp.segs ≠ []) :
+    (paintSingle g.ctm (argsOf g st fi eo) (flat1 sp)).map eraseRectPts =
+      (shapeOf g st fi eo sp).toList.map eraseRectPts := by
+  rw [paintSingle_flat1_unfold, shapeOf_eq g st fi eo sp hne]
+  have hne' : sp.segs.map (Seg.map (apply_matrix_pt g.ctm)) ≠ [] := by
+    simpa using hne
+  simpa using drop_step (argsOf g st fi eo) (apply_matrix_pt g.ctm sp.start) _ sp.closed
+    (pathOf (apply_matrix_pt g.ctm) sp) hne'
+
 end PdfVerif.PathLemmas
